@@ -125,6 +125,10 @@ def space(tier, seed):
 def scenario(item):
     sched, k, rc, hist = CFGS[item["cfg"]]
     scn = {"net": item["net"], "sessions": item["sessions"], "sched": sched, "k": k, "recompute": rc, "period": 5}
+    # stations are registered (and constraints inserted) in a non-alphabetical order: a dump/load that
+    # re-orders the station map (but not the parallel arrays) must be visible
+    scn["order"] = ["PS-C", "PS-A", "PS-B"]
+    scn["corder"] = [2, 0, 3, 1]
     return scn, hist
 
 
